@@ -93,6 +93,20 @@ def build_component(comp, workdir, extra_defines=()):
     cfile = os.path.join(workdir, 'lowered.c')
     with open(cfile, 'w') as fh:
         fh.write(text + post)
+    # A loop contract that names a variable the (changed) loop no longer has cannot be spliced: the same bounded
+    # under-approximation as for a loop without contract (violations only, never a pass).
+    for _ in range(4):
+        rc, out, err, _dt = sh(['goto-cc', '-I', os.path.join(ROOT, 'specs'), '-I', ROOT, '-I', os.path.join(ROOT, 'contracts'),
+                                '-c', cfile, '-o', os.path.join(workdir, 'syntax.gb')], timeout=300, mem_gb=8)
+        m = re.search(r"In function '(\w+)':\n[^\n]*error: failed to find symbol '[^']*'\n\s*__CPROVER_(loop_invariant|assigns|decreases)", out + err)
+        if rc == 0 or not m or m.group(1) not in contracts or m.group(1) in cfg['bounded_functions']:
+            break
+        contracts[m.group(1)]['loops'] = {}
+        contracts[m.group(1)]['require_loop_contracts'] = False
+        cfg['bounded_functions'].append(m.group(1))
+        text, em = cxxemit.lower_component(cfg, contracts)
+        with open(cfile, 'w') as fh:
+            fh.write(text + post)
     cfg['mutable_globals'] = list(em.mutable_globals)
     with open(os.path.join(workdir, 'names.txt'), 'w') as fh:
         for c in em.order:
